@@ -53,14 +53,6 @@ var two53 = new(big.Int).Lsh(big.NewInt(1), 53)
 
 func beyond53(i *big.Int) bool { return new(big.Int).Abs(i).Cmp(two53) > 0 }
 
-func isSignedInt(t string) bool {
-	switch t {
-	case "int", "int8", "int16", "int32", "int64", "MyInt", "MyI8":
-		return true
-	}
-	return false
-}
-
 // exactIntegerOfDouble returns the exact decimal of an integral double.
 func exactIntegerOfDouble(d float64) (string, bool) {
 	if d != d || math.IsInf(d, 0) || d != math.Trunc(d) {
@@ -183,8 +175,9 @@ func registerMatchers() {
 			return false
 		}
 		g := effective(*in.G)
-		if isSignedInt(g.T) {
-			return beyond53(g.Int()) && f.Actual == g.Int().String()
+		if rb.IsIntType(g.T) && beyond53(g.Int()) && f.Actual == g.Int().String() {
+			// the exact Go integer (signed types; unsigned ones too once ToInteger keeps them exact)
+			return true
 		}
 		var d float64
 		switch {
